@@ -103,6 +103,30 @@ func (g *gen) ttl(now int64, rich bool) uint32 {
 
 var keyAlphabet = []string{"a", "bb", "k3", "key-4"}
 
+// oddKeys are legal keys of both protocols whose bytes mean something to a formatter,
+// a shell or a parser: they must come back exactly as they were sent.
+var oddKeys = []string{"p%d", "100%", "%s%%x%!", "q{1}[2]", "t\\n", "caf\xc3\xa9", "<&>;|", "%v%v%v%v"}
+
+// keys draws n distinct keys: the plain alphabet, each replaced by an odd key with
+// probability 1/4.
+func (g *gen) keys(n int) []string {
+	if n > len(keyAlphabet) {
+		n = len(keyAlphabet)
+	}
+	ks := append([]string{}, keyAlphabet[:n]...)
+	used := map[string]bool{}
+	for i := range ks {
+		if g.p(1, 4) {
+			k := pick(g, oddKeys)
+			if !used[k] {
+				used[k] = true
+				ks[i] = k
+			}
+		}
+	}
+	return ks
+}
+
 // genCfg draws a deployment for the orchestrator-level properties (std handlers).
 func (g *gen) cfgStd() stack.Cfg {
 	c := stack.Cfg{L1: "std", L2: "std", GetEAbsolute: g.p(1, 2)}
